@@ -69,6 +69,8 @@ ThrowEv(e) ==
          exp == tab.lines[v]                       \* original path and line of the throw site of the text in use
          bad == {i \in 1..Len(e.frames) : ~FrameOk(e.frames[i], exp)}
      IN IF e.threw THEN Verdict(e.rid, "C11", "reject", "stack-trace preparation threw")
+        \* the start of the enclosing function, as a wrapped call site reports it, is translated like a call-site position
+        ELSE IF e.enclosing_bad # "" THEN Verdict(e.rid, "C11", "reject", <<"enclosing position of a wrapped call site not translated like a call-site position", e.enclosing_bad>>)
         ELSE IF bad # {} THEN Verdict(e.rid, "C11", "reject", <<"text in use:", v, "expected", exp, "reported", e.frames>>)
         ELSE Verdict(e.rid, "C11", IF tab.classes[v] = "modified" THEN "ok" ELSE "ok0", v)
   /\ UNCHANGED <<cache, loaded, tab>>
